@@ -74,6 +74,11 @@ def grammar(n, per, **kw):
     a.update(kw)
     return {'scen': 'grammar', 'args': a, 'n': n}
 
+P('C03', theorems=['Tcs.red_step', 'Tcs.C03_reduction', 'Tcs.C03_reduction_sublist', 'Tcs.red_init', 'Tcs.red_resp', 'Tcs.red_db'],
+  module='Tcs.Proofs.Reduction',
+  owned={'conc.trace', 'conc.resp', 'dump.own', 'dump.other'},
+  oracles=[O.o_c03],
+  plan={'quick': [{'scen': 'sched', 'args': {}, 'n': 180}], 'thorough': [{'scen': 'sched', 'args': {}, 'n': 4000}, {'scen': 'sched', 'args': {'probe': '1', 'corpus': '0'}, 'n': 300}]})
 P('C05', theorems=['Tcs.fault_safety', 'Tcs.runF_noFault', 'Tcs.commitId_sql', 'Tcs.commitLast_getChildVersion', 'Tcs.commitLast_addVersion', 'Tcs.commitLast_addSnapshot', 'Tcs.commitLast_getSnapshot', 'Tcs.commitLast_ensureFixed'],
   module='Tcs.Proofs.FaultSafety',
   owned={'av.kind', 'gcv.kind', 'as.kind', 'gs.kind', 'http.status', 'state.dump', 'fault.consumed'},
@@ -126,6 +131,11 @@ def histogram(runs):
     return dict(h)
 
 def nontrivial_key(r):
+    if r.ws[0] == 'res':
+        ih = parse_http_obs(r.impl)
+        return ('res', r.ws[1], (ih or {}).get('status'), (r.meta or {}).get('kinds'))
+    if r.ws[0] == 'ev' and r.ws[2] == 'want-begin':
+        return ('ev', r.ws[1], (r.meta or {}).get('kinds'), r.lineno % 7)
     if r.op not in ('av', 'gcv', 'as', 'gs', 'http'):
         return None
     o = r.i_out[0] if isinstance(r.i_out, tuple) else str(r.i_out)
